@@ -45,6 +45,19 @@ Theorem C12_nonflexible_decodes : forall pid non_key first last w h c prev,
 Proof. exact vp9_nonflex_fragment_decodes. Qed.
 Print Assumptions C12_nonflexible_decodes.
 
+(* IsPartitionHead (the B bit) is true on the first packet of a frame only, in both modes *)
+From RTP Require Import Proofs.PartitionHead.
+Theorem C12_partition_head_flexible : forall first last rest,
+  vp9_is_partition_head (Some (flex_b0 first last :: rest)) = first.
+Proof. exact vp9_flex_head. Qed.
+Print Assumptions C12_partition_head_flexible.
+
+Theorem C12_partition_head_nonflexible : forall pid non_key first last w h c,
+  vp9_is_partition_head (Some (nonflex_hdr pid non_key first last w h ++ c)) = first.
+Proof. exact vp9_nonflex_head. Qed.
+Print Assumptions C12_partition_head_nonflexible.
+
+
 Theorem C12_picture_id : forall st init mtu p st' fs, 0 <= v9_pid st < 32768 ->
   vp9_payload st init mtu p = Ok (st', fs) ->
   let pid := if v9_initialized st then v9_pid st else init mod 32768 in
